@@ -193,7 +193,7 @@ def mirror_compare(R, items, results):
 
 def run_items(R, items, deadline, certify):
     for it in items:
-        it["stages"] = bool(R.thorough) or it.get("tag") in ("corpus", "replay")
+        it["stages"] = bool(R.thorough) or it.get("tag") in ("corpus", "replay") or len(it["P1"]) <= 8
     results = pmap("c03", "impl_one", items, deadline=deadline, workers=12)
     mirror_compare(R, items, results)
     need, idx = [], []
@@ -411,7 +411,7 @@ def run(R):
     R.assumptions = ["Irving's rotation algorithm is not modelled; each output is certified (kernel-checked soundness of smCertOk)",
                      "z3 only finds certificates; they are re-checked by the Lean checker"]
     items = [dict(c, tag="corpus") for c in corpus()]
-    items += gen_random(R, 900 if R.thorough else 150, 9 if R.thorough else 7)
+    items += gen_random(R, 900 if R.thorough else 450, 9 if R.thorough else 7)
     items += gen_blocks(R, 120 if R.thorough else 24, True)
     items += gen_blocks(R, 120 if R.thorough else 24, False)
     run_closed(R, [gen_poset(R) for _ in range(6000 if R.thorough else 400)])
